@@ -41,6 +41,8 @@ def _in_repo(path):
 def crash_signature(stderr, returncode):
     """Narrow, stable description of a sanitizer report: kind + innermost frame that lies in libeav sources."""
     kind = "exit%s" % returncode
+    if "DRV-DECOY object-interference" in stderr:
+        return "object-interference/second-untouched-object-changed-its-outcome"
     m = re.search(r"ERROR: (AddressSanitizer|LeakSanitizer|ThreadSanitizer): ([A-Za-z0-9_-]+)", stderr)
     if m:
         kind = m.group(2)
